@@ -133,6 +133,7 @@ type Peer struct {
 	changed chan struct{} // closed and replaced on every new entry (broadcast)
 	readEnd bool
 	readErr error
+	paused  chan struct{} // non-nil while reads are paused; closed by ResumeReads
 	done    chan struct{} // closed when the reader goroutine exits
 }
 
@@ -206,9 +207,35 @@ func (p *Peer) add(e Entry) Entry {
 	return p.appendLocked(e)
 }
 
+// PauseReads makes the reader goroutine stop before its next frame (a peer that
+// does not read: bytes pile up in the connection).  ResumeReads undoes it.
+func (p *Peer) PauseReads() {
+	p.mu.Lock()
+	if p.paused == nil {
+		p.paused = make(chan struct{})
+	}
+	p.mu.Unlock()
+}
+
+// ResumeReads lets the reader goroutine continue.
+func (p *Peer) ResumeReads() {
+	p.mu.Lock()
+	if p.paused != nil {
+		close(p.paused)
+		p.paused = nil
+	}
+	p.mu.Unlock()
+}
+
 func (p *Peer) readLoop() {
 	defer close(p.done)
 	for {
+		p.mu.Lock()
+		gate := p.paused
+		p.mu.Unlock()
+		if gate != nil {
+			<-gate
+		}
 		f, err := p.fr.ReadFrame()
 		if err != nil {
 			p.mu.Lock()
@@ -283,7 +310,10 @@ func (p *Peer) readLoop() {
 func (p *Peer) Done() <-chan struct{} { return p.done }
 
 // Close closes the connection.
-func (p *Peer) Close() { p.Conn.Close() }
+func (p *Peer) Close() {
+	p.ResumeReads()
+	p.Conn.Close()
+}
 
 // Log returns a snapshot of the frame log.
 func (p *Peer) Log() []Entry {
